@@ -1,6 +1,7 @@
 package main
 
 import (
+	"golang.org/x/sys/unix"
 	gnutar "archive/tar"
 	"bytes"
 	"context"
@@ -57,7 +58,7 @@ func snapshotTree(root string, withDirMtime bool) []string {
 		st := info.Sys().(*syscall.Stat_t)
 		line := fmt.Sprintf("%s mode=%o uid=%d gid=%d", rel, st.Mode, st.Uid, st.Gid)
 		mt := info.ModTime().UnixNano()
-		if info.Mode()&os.ModeSymlink == 0 && (withDirMtime || !info.IsDir()) {
+		if withDirMtime || !info.IsDir() { // symbolic links included: their own time stamp (lstat)
 			line += fmt.Sprintf(" mtime=%d", mt)
 		}
 		switch {
@@ -124,6 +125,8 @@ func buildDiskTree(rng *rand.Rand, root string) {
 			case k < 9:
 				os.Symlink(string(randBytes(rng, 1+rng.Intn(20))), p)
 				os.Lchown(p, rng.Intn(3000), rng.Intn(3000))
+				ts := unix.NsecToTimespec(mt.UnixNano())
+				unix.UtimesNanoAt(unix.AT_FDCWD, p, []unix.Timespec{ts, ts}, unix.AT_SYMLINK_NOFOLLOW) // the link's own mtime
 			default:
 				typ := uint32(syscall.S_IFBLK)
 				if rng.Intn(2) == 0 {
@@ -295,6 +298,58 @@ func runC05(cfg Config) {
 			monitor("UnTar to disk failed: "+err.Error(), caseLine, "", "")
 		} else if got := snapshotTree(dst, true); strings.Join(got, "\n") != strings.Join(want, "\n") {
 			monitor("tar ; untar does not reproduce the tree on disk", caseLine, diffLines(want, got), "")
+		}
+		// --one-file-system: a directory of the tree is a mount point of another file system: everything on the
+		// root's own file system must still be packed (the mount point and what lies beneath it are left out)
+		if it%3 == 0 {
+			mp := ""
+			filepath.Walk(src, func(p string, info os.FileInfo, err error) error {
+				if err == nil && info.IsDir() && p != src && mp == "" {
+					mp = p
+				}
+				return nil
+			})
+			if mp == "" {
+				mp = filepath.Join(src, "aa-mountpoint")
+				os.Mkdir(mp, 0755)
+				mt := time.Unix(1500000000, 0)
+				os.Chtimes(src, mt, mt)
+			}
+			srcMtime, _ := os.Lstat(filepath.Dir(mp))
+			if err := syscall.Mount("none", mp, "tmpfs", 0, ""); err != nil {
+				rep.Histogram["onefs:mount-not-permitted"]++
+			} else {
+				os.WriteFile(filepath.Join(mp, "inside"), []byte("on the other file system"), 0644)
+				var ar bytes.Buffer
+				err := desync.Tar(context.Background(), &ar, desync.NewLocalFS(src, desync.LocalFSOptions{OneFileSystem: true}))
+				syscall.Unmount(mp, syscall.MNT_DETACH) // lazily: a reader goroutine that was left behind may still hold a directory open
+				os.Chtimes(filepath.Dir(mp), srcMtime.ModTime(), srcMtime.ModTime())
+				rel, _ := filepath.Rel(src, mp)
+				var wantX []string
+				for _, l := range snapshotTree(src, true) {
+					name := strings.SplitN(l, " mode=", 2)[0]
+					if name != rel && !strings.HasPrefix(name, rel+"/") {
+						wantX = append(wantX, l)
+					}
+				}
+				cl := caseLine + " one-file-system mountpoint=" + rel
+				rep.Count(cl, true, "disk:one-file-system")
+				os.RemoveAll(dst)
+				os.MkdirAll(dst, 0755)
+				if err != nil {
+					monitor("Tar --one-file-system failed: "+err.Error(), cl, "", "")
+				} else if err := desync.UnTar(context.Background(), bytes.NewReader(ar.Bytes()), desync.NewLocalFS(dst, desync.LocalFSOptions{})); err != nil {
+					monitor("UnTar of a --one-file-system archive failed: "+err.Error(), cl, "", "")
+				} else if got := snapshotTree(dst, true); strings.Join(got, "\n") != strings.Join(wantX, "\n") {
+					monitor("tar --one-file-system ; untar loses entries of the root's own file system", cl, diffLines(wantX, got), "")
+				}
+				// the source tree is used again below: the emptied mount point is part of it
+				want = snapshotTree(src, true)
+				catar.Reset()
+				if err := desync.Tar(context.Background(), &catar, desync.NewLocalFS(src, desync.LocalFSOptions{})); err != nil {
+					continue
+				}
+			}
 		}
 		// through a chunked index and a store
 		sdir := filepath.Join(cfg.Work, "cstore")
